@@ -115,7 +115,8 @@ def main():
             out["self_after"] = describe(recv)
     except BaseException as e:
         out = {"kind": "raise", "exc": type(e).__module__ + "." + type(e).__name__, "is_gfapy_error": isinstance(e, gfapy.Error),
-               "msg": str(e)[:300], "tb": traceback.format_exc()[-1500:]}
+               "msg": str(e)[:300], "tb": traceback.format_exc()[-1500:],
+               "raised_in": (traceback.extract_tb(e.__traceback__)[-1].filename if e.__traceback__ else None)}
     json.dump(out, sys.stdout)
 
 
